@@ -43,6 +43,20 @@ KEY = {
     "Includes": [CORE + "values::Value::equals", "core::str::<impl str>::contains"],
 }
 FORBIDDEN = re.compile(r"sort_unstable|::split_terminator|::rsplit|::splitn|::split_inclusive|::split_whitespace|::dedup")
+# per built-in: routines that look like the key primitive but decide something else (each is a definite finding in that arm)
+LOOKALIKE = {
+    # equality of values is Value::equals: a set of printed forms / hashes / derived == identifies 1 with "1" or separates equal records
+    "Unique": re.compile(r"hash::set::HashSet|btree::set::BTreeSet|Value::stringify|as core::cmp::PartialEq>::(eq|ne)$|as core::hash::Hash>::hash"),
+    "Includes": re.compile(r"hash::set::HashSet|Value::stringify|blots_core::values::Value as core::cmp::PartialEq>::(eq|ne)$"),
+    # the order of equal elements is the input order: the comparator compares the keys and nothing else
+    "Sort": re.compile(r"cmp::Ordering::then(_with)?$|::sort_by_key|::sort_by_cached_key|slice::<impl \[T\]>::sort$|::reverse$"),
+    "SortBy": re.compile(r"cmp::Ordering::then(_with)?$|::sort_by_key|::sort_by_cached_key|slice::<impl \[T\]>::sort$"),
+    "GroupBy": re.compile(r"hash::map::HashMap|btree::map::BTreeMap"),
+    "CountBy": re.compile(r"hash::map::HashMap|btree::map::BTreeMap"),
+    "Keys": re.compile(r"::sort|hash::map::HashMap"),
+    "Values": re.compile(r"::sort|hash::map::HashMap"),
+    "Entries": re.compile(r"::sort|hash::map::HashMap"),
+}
 
 
 def region_callees(fn, region, cg):
@@ -221,7 +235,7 @@ def run(ctx):
             continue
         cs = region_callees(fr[0], fr[1], cg)
         missing = [r for r in req if not any((c == r or c.endswith(r) or (r.startswith("closure:") and c.startswith("closure:") and c.endswith(r[8:])) or (not r.startswith("closure:") and r in c)) for c in cs)]
-        bad = sorted(c for c in cs if FORBIDDEN.search(c))
+        bad = sorted(c for c in cs if FORBIDDEN.search(c) or (v in LOOKALIKE and LOOKALIKE[v].search(c)))
         # a look-alike in the arm is a definite finding; a key primitive that is not called from the arm itself may have moved into a helper
         # function or shared closure the arm calls (then: no verdict)
         helpers = sorted(c for c in cs if (c.startswith("closure:") or c.startswith("blots_core::") or c.startswith("<blots_core")) and not any(c == r or c.endswith(r) or (r.startswith("closure:") and c.endswith(r[8:])) for r in req)
